@@ -164,6 +164,19 @@ func texttraceMain(args []string) int {
 			}
 		}
 	}
+	// (1a) the header is exactly a mark (the file is only the mark, or the limit cuts right behind it)
+	for _, mk := range markNames {
+		if len(marks[mk]) == 0 {
+			continue
+		}
+		emit(marks[mk], 0, "mark-only/"+mk)
+		emit(marks[mk], 3072, "mark-only/"+mk)
+		for _, bn := range bodyNames[:3] {
+			in := append(append([]byte{}, marks[mk]...), textBodies[bn]...)
+			emit(in, int64(len(marks[mk])), "mark-at-the-cut/"+mk)
+			emit(in, int64(len(marks[mk])+1), "mark-at-the-cut/"+mk)
+		}
+	}
 	// (1b) long text bodies: a binary byte deep inside a header of several KiB
 	long := bytes.Repeat([]byte("The quick brown fox jumps over the lazy dog. 0123456789\n"), 200) // 11 400 bytes
 	for _, v := range []byte{0x00, 0x01, 0x08, 0x0B, 0x0E, 0x1A, 0x1C, 0x1F} {
